@@ -11,6 +11,7 @@ import FordModel.Lemmas.MdState
 import FordModel.Lemmas.Admonition
 import FordModel.Lemmas.Meta
 import FordModel.Lemmas.Attach
+import FordModel.Lemmas.ReaderDoc
 namespace Ford.C03
 open Ford
 
@@ -284,6 +285,77 @@ example :
     (readAll m ["!< a".toList, "!< b".toList, "integer :: x".toList]).toOption = want ∧
     (readAll m ["integer :: x".toList, "!~ a".toList, "! b".toList]).toOption = want ∧
     (readAll m ["!$ a".toList, "! b".toList, "integer :: x".toList]).toOption = want := by
+  decide
+
+/-! ## Preceding documentation: a `!>` block whose later lines use `!>` or the plain doc marker
+    ("In the first line of your preceding documentation, use `!>` rather than the usual `!!`.  This
+    can be used on all lines of the preceding documentation if desired, but this is not necessary") -/
+
+/-- The reader on a preceding doc block, for every marker configuration, every indentation and
+    every text: a pre-marker line, then any mixture of pre-marker lines, **plain doc-marker
+    lines**, ordinary comments and blank lines (`blk`, each line well-formed: the text after
+    its `!` cannot be read as one of the other markers), then a statement line `l` (no doc
+    comment on it, code part `x :: r`, neither continued nor continuing) — read from any state
+    between two logical lines: nothing is emitted before the statement; then the statement(s)
+    of `l`, then every doc line of the block exactly once and in order, rewritten to the plain
+    doc marker; then the reading of `rest` from a state between logical lines.  In particular
+    a plain doc-marker line does not end the block, and whether a later line is written with
+    the pre-marker or the doc marker makes no difference (`DLine.docs`). -/
+theorem predoc_block_lands_after_statement (m : Marks) (pd : Bool) (ind0 t0 : Str) (blk : List DLine)
+    (l : Str) (x : Char) (r : Str) (rest : List Str)
+    (h0 : (DLine.pre ind0 t0).wf m) (hb : ∀ b ∈ blk, b.wf m)
+    (hn : NoDoc m false l) (hc : codeOf false l = x :: r) (hx : x ≠ '&')
+    (hl : (x :: r).getLast? ≠ some '&') (hJ : itemsOf (' ' :: x :: r) ≠ []) :
+    readFrom m (fresh pd) ((DLine.pre ind0 t0 :: blk).map (DLine.render m) ++ l :: rest) =
+      match readFrom m (fresh true) rest with
+      | .error e => .error e
+      | .ok more =>
+        .ok (itemsOf (' ' :: x :: r) ++ (DLine.pre ind0 t0 :: blk).flatMap (DLine.docs m) ++ more) :=
+  readFrom_predoc_block m pd ind0 t0 blk l x r rest h0 hb hn hc hx hl hJ
+
+/-- Reader and parser together: such a block in front of a declaration statement `it` (any
+    parser state, any names it declares) becomes the docstring of exactly the entities that
+    statement declares — all texts of the block, in order, nothing else — while every entity
+    that existed before (in particular the one declared just above the block) is unchanged. -/
+theorem predoc_block_documents_next_declaration (c : Char) (m : Marks) (hd : m.doc = [c]) (pd : Bool)
+    (ind0 t0 : Str) (blk : List DLine) (l : Str) (x : Char) (r : Str) (rest more : List Str)
+    (s : ASt) (it : Str) (ns : List Str) (sp : Bool)
+    (h0 : (DLine.pre ind0 t0).wf m) (hb : ∀ b ∈ blk, b.wf m)
+    (hn : NoDoc m false l) (hc : codeOf false l = x :: r) (hx : x ≠ '&')
+    (hl : (x :: r).getLast? ≠ some '&') (hJ : itemsOf (' ' :: x :: r) = [it])
+    (hnd : it.take 2 ≠ ['!', c]) (hcl : classify it = .leafAll ns sp) (hne : ns ≠ [])
+    (hrest : readFrom m (fresh true) rest = .ok more) :
+    ∃ items, readFrom m (fresh pd) ((DLine.pre ind0 t0 :: blk).map (DLine.render m) ++ l :: rest) = .ok items ∧
+      attachFrom [c] s items =
+        attachFrom [c] { stack := s.stack, reading := ns.length,
+                         ents := s.ents ++ ns.map (fun n => ⟨n, sp, (DLine.pre ind0 t0 :: blk).flatMap DLine.texts, []⟩) }
+          more := by
+  refine ⟨it :: (((DLine.pre ind0 t0 :: blk).flatMap DLine.texts).map (fun d => '!' :: c :: d) ++ more), ?_, ?_⟩
+  · rw [readFrom_predoc_block m pd ind0 t0 blk l x r rest h0 hb hn hc hx hl (by simp [hJ]), hrest, hJ,
+      docs_eq_texts m c hd]
+    simp
+  · exact attach_leaf_docstring c s it ns sp _ more hnd hcl hne
+
+/-- worked instance (non-default markers `doc = ^`, `pre = <`): the Doxygen-like layout
+    `!< first` / `!^ continuation`, with an ordinary comment and a blank line inside the block,
+    between a documented declaration and the one the block is written for -/
+example :
+    let m : Marks := { doc := ['^'], pre := ['<'], alt := ['~'], preAlt := ['$'] }
+    (readAll m ["integer :: a".toList, "!^ da".toList, "!< b1".toList, "  !^ b2".toList, "! plain".toList, [],
+                "!< b3".toList, "!^ b4".toList, "integer :: b".toList]).toOption
+      = some ["integer :: a".toList, "!^ da".toList, "integer :: b".toList, "!^ b1".toList, "!^ b2".toList,
+              "!^ b3".toList, "!^ b4".toList] := by
+  decide
+
+/-- non-vacuity of the two theorems above: the lines of that instance satisfy the hypotheses -/
+example :
+    let m : Marks := { doc := ['^'], pre := ['<'], alt := ['~'], preAlt := ['$'] }
+    (DLine.pre [] " b1".toList).wf m ∧ (DLine.doc "  ".toList " b2".toList).wf m ∧
+    (DLine.plain [] " plain".toList).wf m ∧ (DLine.blank []).wf m ∧
+    NoDoc m false "integer :: b".toList ∧ codeOf false "integer :: b".toList = "integer :: b".toList ∧
+    itemsOf (' ' :: "integer :: b".toList) = ["integer :: b".toList] ∧
+    classify "integer :: b".toList = .leafAll ["b".toList] true := by
+  simp only [DLine.wf, NoDoc]
   decide
 
 /-! ## One Markdown instance for all entities (`Project.markdown`, `FortranBase.markdown`) -/
